@@ -1013,6 +1013,15 @@ func (self *Metadata) restartLocal() error {
 					util.PrintInfo("runtime", "Possibly running  %s", self.fqname)
 				}
 			}
+		} else if err == nil && jobInfo.Pid == 0 {
+			// The job got as far as creating its log, but was killed before
+			// it recorded its pid, which mrjob does after opening the log.
+			// Like a queued job, it is no longer actually there.
+			if err := self.uncheckedReset(); err == nil {
+				util.PrintInfo("runtime", "(reset-running)   %s", self.fqname)
+			} else {
+				return err
+			}
 		}
 	}
 	return nil
